@@ -145,6 +145,10 @@ def module_states(name, tier, nseeds=None, with_short=True, with_synth=True):
             transitions += 1
             if x not in states:
                 states[x] = (1, 'synth:run', '')
+        for x in synth.literal_inputs(name, m, sv, limit=800 if quick else 3000):
+            transitions += 1
+            if x not in states:
+                states[x] = (1, 'synth:literal', '')
         for x in synth.table_inputs(name, m, sv, limit=600 if quick else 5000):
             transitions += 1
             if x not in states:
